@@ -43,5 +43,8 @@ def tap_state(w, prog, tn, state=None, prev=None, overrides=None):
 
 def describe_state(tn, v):
     if isinstance(v, Agg):
-        return (tn.variants[v.variant],) + tuple(v.fields)
+        # fields in the order of their names, not of their declaration (which a refactoring may change)
+        names = [f["name"] for f in tn.prog.adt(tn.TS)["variants"][v.variant]["fields"]]
+        order = sorted(range(len(names)), key=lambda i: names[i]) if len(names) == len(v.fields) else range(len(v.fields))
+        return (tn.variants[v.variant],) + tuple(v.fields[i] for i in order)
     return ("?", v)
